@@ -702,6 +702,22 @@ theorem render_failure_masked_old_counterexample :
       = [⟨0, 0, .msg 7, 2⟩, ⟨0, 0, .exc (.other 3), 0⟩] := by
   decide
 
+def fieldsOf : Res DocOut → List Stan
+  | .ok out => out.fields
+  | .raises _ => []
+
+/-- witness for the open finding `field:render-failure-text-lost`: the body of the docstring renders, the body of
+its one field does not — the field is shown as the BROKEN placeholder (`Field.format`'s fallback is
+`lambda …: BROKEN`, not `format_docstring_fallback`), so the field's text is on the page nowhere; the failure
+itself is reported -/
+theorem field_failure_text_lost_counterexample :
+    let env := { envCx with parser := fun _ _ _ => .returns (.user 1 [⟨.plain, none, .user 7, 3⟩]) [],
+                            toStan := fun k => if k = 7 then .raises (.other 3) else .returns (.opaque k) }
+    bodyOf (formatDocstring env stCx 0).1 = some (.opaque 1) ∧
+    fieldsOf (formatDocstring env stCx 0).1 = [.broken] ∧
+    (formatDocstring env stCx 0).2.reports = [⟨0, 0, .exc (.other 3), 0⟩] := by
+  decide
+
 /-- the summary of a plain-text docstring whose `to_stan` raises (an XML-invalid character) -/
 def envSummaryFails : Env :=
   { envCx with parser := fun _ _ d => .returns (.plain d) [], plainToNode := fun _ => .returns,
